@@ -221,4 +221,39 @@ EXTRA = [
     ("C12", "link-expression-rounded-even", "pdpy11/compiler.py",
      '                return get_as_int(state, "link address", state["insn"], address, bitness=16, unsigned=False)\n            except DeferredCycle:',
      '                return get_as_int(state, "link address", state["insn"], address, bitness=16, unsigned=False) & ~1\n            except DeferredCycle:'),
+    ("C07", "latch-only-for-critical", "pdpy11/reports.py", "    if priority in (error, critical):\n        handler.is_error_condition = True", "    if priority in (critical,):\n        handler.is_error_condition = True"),
+    ("C07", "outfile-written-before-check", "pdpy11/_cli.py",
+     "            comp = Compiler(output_charset=args.charset)\n            base, code = comp.compile_and_link_files(parsed_files)\n",
+     "            comp = Compiler(output_charset=args.charset)\n            if args.outfile:\n                open(args.outfile, \"wb\").close()\n            base, code = comp.compile_and_link_files(parsed_files)\n"),
+    ("C07", "filter-drops-errors-by-identifier", "pdpy11/reports.py",
+     "        if priority is warning:\n            if identifier in self.warning_control:",
+     "        if priority is warning or identifier in self.warning_control:\n            if identifier in self.warning_control:"),
+    ("C07", "warning-class-raises-latch", "pdpy11/reports.py",
+     "    if priority in (error, critical):\n        handler.is_error_condition = True",
+     "    if priority in (error, critical) or identifier == \"legacy-deferred\":\n        handler.is_error_condition = True"),
+    ("C07", "wno-all-changes-bytes", "pdpy11/metacommands.py",
+     "        return b\"\\x00\"\n    return b\"\".join(struct.pack(\"<B\", operand) for operand in byte_operand)",
+     "        return b\"\\x00\" if reports.handle_reports.handlers_stack[-1].obj.__class__.__name__ != \"FilterHandler\" or reports.handle_reports.handlers_stack[-1].obj.warning_control.get(\"implicit-operand\", True) else b\"\\x01\"\n    return b\"\".join(struct.pack(\"<B\", operand) for operand in byte_operand)"),
+    ("C07", "graphical-format-exits-zero-on-late-error", "pdpy11/_cli.py",
+     "    except reports.UnrecoverableError:\n        sys.exit(1)", "    except reports.UnrecoverableError:\n        sys.exit(1 if args.report_format == \"bare\" or not comp_done(locals()) else 0)"),
+    ("C07", "listing-written-on-failure", "pdpy11/_cli.py",
+     "        with reports.handle_reports(report_handler):\n            was_emitted, emitted_file = comp.emit_files(base, code)\n",
+     "        if args.lst:\n            open(\"early.lst\", \"w\").write(comp.generate_listing())\n        with reports.handle_reports(report_handler):\n            was_emitted, emitted_file = comp.emit_files(base, code)\n"),
+    ("C17", "tab-counts-eight", "pdpy11/context.py", "self.code[idx_line_start:self.pos].count(\"\\t\") * 3", "self.code[idx_line_start:self.pos].count(\"\\t\") * 7"),
+    ("C17", "line-number-zero-based", "pdpy11/context.py", "return f\"{self.filename}:{line_no + 1}:{col_no + 1}\"", "return f\"{self.filename}:{line_no}:{col_no + 1}\""),
+    ("C17", "token-end-not-saved", "pdpy11/types.py", "        self.ctx_end = None if ctx_end is None else ctx_end.save()", "        self.ctx_end = None if ctx_end is None else ctx_end"),
+    ("C17", "undefined-symbol-points-at-statement", "pdpy11/types.py",
+     "            \"undefined-symbol\",\n            (self.ctx_start, self.ctx_end,", "            \"undefined-symbol\",\n            (state[\"insn\"].ctx_start, self.ctx_end,"),
+    ("C17", "revert-chunk-position-fix", "pdpy11/parser.py", "def angle_bracketed_char(ctx):\n    ctx.skip_whitespace()\n", "def angle_bracketed_char(ctx):\n"),
+    ("C17", "included-file-errors-name-parent", "pdpy11/metacommands.py", "    file_ast = parser.parse(include_path, code)", "    file_ast = parser.parse(state[\"filename\"] if \"8\" in include_path else include_path, code)"),
+    ("C17", "duplicate-symbol-points-at-first-definition", "pdpy11/compiler.py",
+     "                (label.ctx_start, label.ctx_end, f\"Duplicate {'local label' if label.local else 'symbol'} '{label.name}:'\"),\n                (prev_sym.ctx_start, prev_sym.ctx_end, \"A symbol with the same name has been already declared here\")",
+     "                (prev_sym.ctx_start, prev_sym.ctx_end, \"A symbol with the same name has been already declared here\"),\n                (label.ctx_start, label.ctx_end, f\"Duplicate {'local label' if label.local else 'symbol'} '{label.name}:'\")"),
+    ("C19", "sort-by-name-then-value", "pdpy11/compiler.py", "labels.sort(key=lambda item: (item[1], item[0]))", "labels.sort(key=lambda item: (item[0], item[1]))"),
+    ("C19", "value-not-zero-padded", "pdpy11/compiler.py", "oct(abs(value))[2:].rjust(6, \"0\")", "oct(abs(value))[2:].rjust(6)"),
+    ("C19", "revert-negative-value-fix", "pdpy11/compiler.py", "(\"-\" if value < 0 else \"\") + oct(abs(value))[2:].rjust(6, \"0\")", "oct(value)[2:].rjust(6, \"0\")"),
+    ("C19", "names-starting-with-q-skipped", "pdpy11/compiler.py", "                if isinstance(value, int):\n", "                if isinstance(value, int) and not name.startswith(\"q1\"):\n"),
+    ("C19", "listing-beside-source-not-output", "pdpy11/_cli.py", "                lst_file = emitted_file[\"path\"]\n", "                lst_file = emitted_file[\"path\"].split(\"/\")[-1]\n"),
+    ("C19", "included-symbols-under-parent-name", "pdpy11/compiler.py", "            \"filename\": file.filename,\n            \"context\": \"file\",", "            \"filename\": file.filename if \"inc8\" not in file.filename else \"f0.mac\",\n            \"context\": \"file\","),
+    ("C19", "values-truncated-to-16-bits", "pdpy11/compiler.py", "                value = wait(addr)\n\n                labels_by_file", "                value = wait(addr)\n                value = value & 0o177777 if isinstance(value, int) and value > 0 else value\n\n                labels_by_file"),
 ]
